@@ -394,6 +394,13 @@ def _calls_reset(tree, name):
     return fn is not None and 'reset_recursion_limitations()' in ast.unparse(fn)
 
 
+def _standin(repo, seed, tier):
+    from pyvc.standin import run_standin
+    return run_standin('C15', tier, seed, repo)
+
+
+_standin.tiers = ('quick', 'thorough')
+BOUNDED = [_standin]
 STRUCTURAL = [structural_guards, structural_defaults]
 NOT_DECIDED = ['that the guards cut every cycle of the (dynamically dispatched) call graph',
                'RecursionError from Python frame depth alone', 'polynomial cost',
